@@ -189,17 +189,22 @@ class Connection(object):
         with self._write_lock:
             if self.networking_thread is not None and \
                not self.networking_thread.interrupt or \
-               self.new_networking_thread is not None:
+               self.new_networking_thread is not None and \
+               not self.new_networking_thread.interrupt:
                 raise InvalidState('A networking thread is already running.')
-            elif self.networking_thread is None:
+            elif self.networking_thread is None and \
+                    self.new_networking_thread is None:
                 self.networking_thread = NetworkingThread(self)
                 self.networking_thread.start()
             else:
-                # This thread will wait until the existing thread exits, and
-                # then set 'networking_thread' to itself and
-                # 'new_networking_thread' to None.
+                # This thread will wait until the existing thread (or an
+                # already interrupted thread that is itself still waiting
+                # to take over) exits, and then set 'networking_thread' to
+                # itself and 'new_networking_thread' to None.
+                previous = self.new_networking_thread or \
+                    self.networking_thread
                 self.new_networking_thread \
-                    = NetworkingThread(self, previous=self.networking_thread)
+                    = NetworkingThread(self, previous=previous)
                 self.new_networking_thread.start()
 
     def write_packet(self, packet, force=False):
@@ -424,7 +429,8 @@ class Connection(object):
     def _check_connection(self):
         if self.networking_thread is not None and \
            not self.networking_thread.interrupt or \
-           self.new_networking_thread is not None:
+           self.new_networking_thread is not None and \
+           not self.new_networking_thread.interrupt:
             raise InvalidState('There is an existing connection.')
 
     def _connect(self):
@@ -597,7 +603,8 @@ class NetworkingThread(threading.Thread):
                     self.previous_thread.join()
                 with self.connection._write_lock:
                     self.connection.networking_thread = self
-                    self.connection.new_networking_thread = None
+                    if self.connection.new_networking_thread is self:
+                        self.connection.new_networking_thread = None
             self._run()
             self.connection._handle_exit()
         except Exception as e:
